@@ -13,7 +13,7 @@ one() {
   S=$(mktemp -d /tmp/mechsel.XXXX); rsync -a --exclude .git /repo/ $S/
   f=$(/verif/bin/mechrefactor -dir $S -t $t -k $k 2>&1)
   if ! (cd $S && go build ./... 2>/dev/null); then echo "NOBUILD $t#$k $f"; rm -rf $S; return; fi
-  out=$(/verif/bin/gabilint -repo $S -prop all -evidence "" 2>&1 | grep -E "^\s+(VIOLATED|UNDECIDED)|load-failure" | cut -c1-240)
+  out=$(${GABILINT:-/verif/bin/gabilint} -repo $S -prop all -evidence "" 2>&1 | grep -E "^\s+(VIOLATED|UNDECIDED)|load-failure" | cut -c1-240)
   if [ -z "$out" ]; then echo "SILENT $t#$k"; else echo "ALARM $t#$k $f"; echo "$out" | head -4 | sed 's/^/      /'; fi
   rm -rf $S
 }
